@@ -17,6 +17,7 @@ open RV.C15
 #print axioms initbindings_values_needs_outermost_binding
 #print axioms expr_eval_clears
 #print axioms prepared_stateless
+#print axioms prepared_base_unchanged
 #print axioms prepared_repeat
 #print axioms prepared_any_schedule
 #print axioms store_irrelevant
